@@ -550,3 +550,6 @@ COMPONENTS = {
              "mpilot.commands", "mpilot.params", "mpilot.libraries.eems", "mpilot.cli.mpilot.main (in-process)"],
     "stub": ["file system: SimFS"],
 }
+
+
+STATE_MEASURE = {'C11': 'abstract state = (parser history class: first / after earlier parse / after failed parse, line ending, fault kind x route); schedule key = operation sequence'}
